@@ -281,7 +281,7 @@ Definition scf_step (alg : salg) (k : N) (s : scf_state) (e : scf_event) (o : so
     end
   | SeReceive b _ =>
     match scf_find_item (sb_id b) (ss_items s) with
-    | None => scf_accept alg k o s b false false
+    | None => scf_accept alg k o s b false true   (* after fix 8e09450: a received bundle's properties are stored with the push *)
     | Some _ =>
       if existsb (fun it => scf_has_id (sb_id b) it && scf_unpersisted it) (ss_items s) then
         (* no stored constraint: the descriptor's Sync deletes the item, the bundle is processed as new *)
